@@ -2372,7 +2372,19 @@ impl Reference
 			};
 		}
 
-		let member = member.map(|member| (member, value_type.clone()));
+		// The last member of the path has the type of the assigned value
+		// wrapped in the steps that follow that member.
+		let steps_after_member = steps
+			.iter()
+			.rposition(|step| step.get_member().is_some())
+			.map(|i| &steps[(i + 1)..])
+			.unwrap_or(&[]);
+		let member_type = build_type_of_reference(
+			value_type.clone(),
+			steps_after_member,
+			false,
+		);
+		let member = member.map(|member| (member, member_type));
 
 		let full_type = build_type_of_reference(value_type, &steps, false);
 		let assignment_error = match typer.put_symbol(base, full_type)
